@@ -8,6 +8,10 @@ Import ListNotations.
 From VP Require Import Model.ModelBuilder.
 Set Implicit Arguments.
 
+(* the specified dispatch: an arity-n closure receives slice elements 0..n-1 in order, n = 1..10.
+   Props/C16.v proves that the table read from the source on every run (Gen/DispatchTable.v) is this one. *)
+Definition canon_table : list (nat * list nat) := map (fun n => (n, seq 0 n)) (seq 1 10).
+
 Section SepModel.
   Variables name Fn Fn0 X Sc : Type.
   Variable arity : Fn -> nat.
